@@ -232,7 +232,9 @@ where
 
     #[inline]
     fn empty(&mut self) {
-        self.slice = &[];
+        // Keep the position within the original slice, so that `offset_from`
+        // and `offset_id` remain meaningful.
+        self.slice = &self.slice[..0];
     }
 
     #[inline]
